@@ -121,63 +121,8 @@ fn ascii3() -> [u8; 3] {
   ascii::<3>()
 }
 
-// ---- DID URL segments through the public setters: fragment / query of N symbolic printable ASCII bytes ----
-
-/// pchar / "/" / "?" without pct-encoded (RFC 3986 as profiled by DID core)
-fn qf_char(c: u8) -> bool {
-  c.is_ascii_alphanumeric() || b"-._~!$&'()*+,;=:@/?".contains(&c)
-}
-
-/// reference for set_fragment / set_query: an optional lead character, then a non-empty run of qf_char / complete escapes
-fn ref_segment(b: &[u8], lead: u8) -> bool {
-  let t = if !b.is_empty() && b[0] == lead { &b[1..] } else { b };
-  if t.is_empty() {
-    return false;
-  }
-  let mut i = 0;
-  while i < t.len() {
-    if t[i] == b'%' {
-      if i + 2 >= t.len() || !hex(t[i + 1]) || !hex(t[i + 2]) {
-        return false;
-      }
-      i += 3;
-    } else if qf_char(t[i]) {
-      i += 1;
-    } else {
-      return false;
-    }
-  }
-  true
-}
-
-fn segment<const N: usize>(fragment: bool) {
-  let b: [u8; N] = any();
-  let mut i = 0;
-  while i < N {
-    assume(b[i] > 32 && b[i] < 127);
-    i += 1;
-  }
-  let s = core::str::from_utf8(&b).unwrap();
-  let mut u = identity_did::RelativeDIDUrl::new();
-  let got = if fragment { is_ok(u.set_fragment(Some(s))) } else { is_ok(u.set_query(Some(s))) };
-  assert_eq!(got, ref_segment(&b, if fragment { b'#' } else { b'?' }));
-  if N == 4 {
-    sym_cover!(b[0] == b'%' && hex(b[1]) && hex(b[2]), "escape followed by one more character");
-  }
-  core::mem::forget(u);
-}
-pub fn fragment_4() {
-  segment::<4>(true)
-}
-pub fn query_4() {
-  segment::<4>(false)
-}
-pub fn fragment_2() {
-  segment::<2>(true)
-}
-proof!(c10_fragment_4, unwind = 8, fragment_4);
-proof!(c10_query_4, unwind = 8, query_4);
-proof!(c10_fragment_2, unwind = 8, fragment_2);
+// DID URL segments through the public setters (set_fragment / set_query on 2 and 4 symbolic bytes) hit the 25-minute cap at 6 GB
+// (String formatting + char_indices); is_valid_url_segment is decided by an M kernel instead (checks/c10.py).
 
 pub fn twin_must_fail() {
   let b = ascii3();
@@ -194,9 +139,6 @@ pub const BODIES: &[(&str, fn())] = &[
   ("c10_method_id_colon_1", method_id_colon_1),
   ("c10_method_id_colon_2", method_id_colon_2),
   ("c10_method_id_colon_3", method_id_colon_3),
-  ("c10_fragment_4", fragment_4),
-  ("c10_query_4", query_4),
-  ("c10_fragment_2", fragment_2),
   ("c10_method_name_0", method_name_0),
   ("c10_method_name_3", method_name_3),
   ("c10_twin_must_fail", twin_must_fail),
